@@ -10,6 +10,7 @@ import (
 func init() {
 	vpRegister("vpH_C19_fault", vpH_C19_fault)
 	vpRegister("vpH_C19_bigdv", vpH_C19_bigdv)
+	vpRegister("vpH_C19_bigdict", vpH_C19_bigdict)
 }
 
 var vpFaultOps = []string{"Dictionary(a)", "Dictionary(_id)", "PostingsList+iterate", "VisitStoredFields", "DocumentValues", "DocsMatchingTerms", "CollectionStats", "PostingsList(location-free term)+iterate with locations", "PostingsList(with deletions)+iterate"}
@@ -188,4 +189,35 @@ func vpH_C19_bigdv() {
 		_, _ = visit(n)
 	}
 	vpReach("C19 bigdv end")
+}
+
+// C19 for a field with a large term dictionary (1500 irregular terms: the FST
+// is several KiB long): the storage starts failing at the k-th read (symbolic)
+// of the lazy dictionary load; every later call returns.
+func vpH_C19_bigdict() {
+	var terms []*vpTerm
+	x := uint32(12345)
+	for i := 0; i < 1500; i++ {
+		x = x*1664525 + 1013904223
+		t := []byte{byte('a' + (x>>27)%26), byte('a' + (x>>22)%26), byte('a' + (x>>17)%26), byte('a' + (x>>12)%26), byte('a' + (x>>7)%26), byte('0' + i%10), byte('0' + i/10%10), byte('0' + i/100%10), byte('0' + i/1000)}
+		terms = append(terms, &vpTerm{term: t, freq: 1})
+	}
+	docs := []*vpDoc{{fields: []*vpField{
+		{name: "_id", store: true, value: []byte("d0"), length: 1, terms: []*vpTerm{{term: []byte("d0"), freq: 1}}},
+		{name: "a", length: len(terms), terms: terms}}}}
+	seg, file := vpLoadFile(vpPersist(vpBuild(docs, 1025)))
+	file.failFrom = file.reads + int(vpRange("k", 0, 4))
+	for _, f := range []string{"a", "a", "_id", "a"} {
+		mark := file.reads
+		d, err := seg.Dictionary(f)
+		if file.failFrom >= mark && file.failFrom < file.reads {
+			vpReach("C19 storage failed during a call")
+			vpAssert(err != nil, "failed storage read during the dictionary load is reported")
+		}
+		if err == nil && d != nil {
+			_, _ = d.PostingsList([]byte("d0"), nil, nil)
+		}
+	}
+	_, _ = seg.DocsMatchingTerms([]segment.Term{vpTermRef{"a", "x"}, vpTermRef{"_id", "d0"}})
+	vpReach("C19 bigdict end")
 }
